@@ -146,6 +146,26 @@ deriving Repr, DecidableEq
 def intOK (c : Cell) : Bool := c.isEmpty || (parseInt c).isSome
 def intCell (c : Cell) : Int := (parseInt c).getD 0
 
+/-- syntactically an integer literal: ParseInt succeeds or fails with ErrRange (not ErrSyntax) -/
+def intSyntax (c : Cell) : Bool :=
+  match c with
+  | [] => false
+  | ch :: rest => if ch == '-' || ch == '+' then (parseUDigits rest).isSome else (parseUDigits (ch :: rest)).isSome
+
+/-- `f >= 1<<53 || f <= -(1<<53)` on IEEE bits (false for NaN) -/
+def f64AbsGe2p53 (bits : Nat) : Bool :=
+  let e := (bits >>> 52) % 2048
+  let m := bits % 4503599627370496
+  decide (e ≥ 1076) && !(e == 2047 && m != 0)
+
+def smallInt (n : Int) : Bool := decide (-9007199254740992 ≤ n) && decide (n ≤ 9007199254740992)
+
+/-- the 2^53 exactness guards of the current source (absent ⇒ always true) -/
+def exactGuards (pf : Cell → Option Nat) (pre post : List Cell) : Bool :=
+  !Arc.Generated.C31.inexactIntsStayText ||
+  (pre.all (fun c => smallInt (intCell c)) &&
+   post.all (fun c => c.isEmpty || !(f64AbsGe2p53 ((pf c).getD 0) && intSyntax c)))
+
 /-- `pf` = strconv.ParseFloat(s, 64) as IEEE bits (parameter). -/
 def inferCol (pf : Cell → Option Nat) (raw : List Cell) : Col × Option (List Bool) :=
   let hasValue := raw.any (fun c => !c.isEmpty)
@@ -155,7 +175,7 @@ def inferCol (pf : Cell → Option Nat) (raw : List Cell) : Col × Option (List 
   let pre := raw.takeWhile intOK
   let post := raw.dropWhile intOK
   if post.isEmpty then (.int (raw.map intCell), validity)
-  else if post.all (fun c => c.isEmpty || (pf c).isSome) then
+  else if post.all (fun c => c.isEmpty || (pf c).isSome) && exactGuards pf pre post then
     (.float (pre.map (fun c => f64BitsOfInt (intCell c)) ++ post.map (fun c => if c.isEmpty then 0 else (pf c).getD 0)),
      validity)
   else if raw.all (fun c => c.isEmpty || isBoolLiteral c) then
@@ -224,6 +244,7 @@ def timeLit : Cell := ['t','i','m','e']
 /-- `validateImportHeader`: index of the time column, or none (rejected) -/
 def validateHeader (header : List Cell) (timeCol : Cell) : Option Nat :=
   if header.any (fun n => n.isEmpty) then none
+  else if Arc.Generated.C31.headerRejectsUnderscore && header.any (fun n => n.head? == some '_') then none
   else if !header.Nodup then none
   else
     match header.idxOf? timeCol with
@@ -317,7 +338,8 @@ def convertCSV (pf : Cell → Option Nat) (fb : Cell → Option Int) (x : CsvIn)
     | none => none
     | some ti =>
       let rows := body.map (padTo header.length)
-      if rows.isEmpty then none else
+      if rows.isEmpty then none
+      else if Arc.Generated.C31.rejectLongRows && body.any (fun r => decide (r.length > header.length)) then none else
       match timeCells fb x.fmt (column rows ti) with
       | none => none
       | some tm =>
@@ -377,7 +399,10 @@ def pqTyped (c : PCol) : Option TCol :=
   let validity := if anyNull c.cells then some (c.cells.map (fun x => x.v != .null)) else none
   let mk (col : Col) : Option TCol := some { name := c.name, col := col, validity := validity }
   match c.kind with
-  | .i8 | .i16 | .i32 | .i64 | .u8 | .u16 | .u32 | .u64 =>
+  | .u64 =>
+    if Arc.Generated.C31.uint64RangeChecked && c.cells.any (fun x => match x.v with | .i n => decide (n > maxI64) | _ => false) then none
+    else mk (.int (c.cells.map (fun x => match x.v with | .i n => wrap64 n | _ => 0)))
+  | .i8 | .i16 | .i32 | .i64 | .u8 | .u16 | .u32 =>
     mk (.int (c.cells.map (fun x => match x.v with | .i n => wrap64 n | _ => 0)))
   | .ts u => mk (.int (c.cells.map (fun x => match x.v with | .i n => arrowTimestampToMicros n u | _ => arrowTimestampToMicros 0 u)))
   | .f32 | .f64 | .dec => mk (.float (c.cells.map (fun x => match x.v with | .f b => b | _ => 0)))
